@@ -30,9 +30,10 @@ type C20Rel struct {
 	Tag      string `json:"tag"`
 	Draft    bool   `json:"draft,omitempty"`
 	Pre      bool   `json:"prerelease,omitempty"`
-	Platform string `json:"platform"` // this | other | both | none
-	Archive  string `json:"archive"`  // tar.gz | zip | raw | corrupt | noexe
-	Checksum string `json:"checksum"` // ok | absent | wrong | other-file | malformed | missing-entry
+	Platform string `json:"platform"`        // this | other | both | none
+	Archive  string `json:"archive"`         // tar.gz | zip | raw | corrupt | noexe
+	Checksum string `json:"checksum"`        // ok | absent | wrong | other-file | malformed | missing-entry
+	Extra    string `json:"extra,omitempty"` // further assets named like this platform's: deb-before | deb-after | sbom-before
 }
 
 type C20Case struct {
@@ -67,9 +68,15 @@ func genC20(t *rapid.T) C20Case {
 		r.Platform = rapid.SampledFrom([]string{"this", "this", "this", "this", "both", "both", "both", "other", "none"}).Draw(t, "platform")
 		r.Archive = rapid.SampledFrom([]string{"tar.gz", "tar.gz", "tar.gz", "zip", "raw", "corrupt", "noexe"}).Draw(t, "archive")
 		r.Checksum = rapid.SampledFrom([]string{"ok", "ok", "ok", "ok", "absent", "wrong", "other-file", "malformed", "missing-entry"}).Draw(t, "checksum")
+		r.Extra = rapid.SampledFrom([]string{"", "", "", "deb-before", "deb-after", "sbom-before"}).Draw(t, "extra")
 		c.Rels = append(c.Rels, r)
 	}
 	if rapid.IntRange(0, 5).Draw(t, "fault") == 0 {
+		// a download fault together with a bad checksum: a fallback path must not install unverified bytes
+		if len(c.Rels) > 0 && rapid.Bool().Draw(t, "faultwithbadsum") {
+			c.Rels[0].Checksum = rapid.SampledFrom([]string{"wrong", "other-file", "missing-entry"}).Draw(t, "badsum")
+			c.Rels[0].Platform, c.Rels[0].Archive, c.Rels[0].Draft, c.Rels[0].Pre = "this", "tar.gz", false, false
+		}
 		c.Fault = rapid.SampledFrom([]string{"list-500", "list-404", "list-garbage", "asset-404", "asset-404", "asset-500", "asset-500", "asset-truncated", "asset-truncated", "checksum-404", "checksum-404", "checksum-500", "checksum-500"}).Draw(t, "faultkind")
 	}
 	return c
@@ -191,6 +198,16 @@ func build(c C20Case) ([]builtRel, relsrv.Catalogue) {
 			}
 			return a
 		}
+		extra := func() builtAsset {
+			n := "crs-toolchain_" + vtxt + "_linux_amd64.deb"
+			if r.Extra == "sbom-before" {
+				n = "crs-toolchain_" + vtxt + "_linux_amd64.sbom.json"
+			}
+			return builtAsset{name: n, body: []byte("this is not the executable: " + n)}
+		}
+		if (r.Platform == "this" || r.Platform == "both") && (r.Extra == "deb-before" || r.Extra == "sbom-before") {
+			br.assets = append(br.assets, extra())
+		}
 		switch r.Platform {
 		case "this":
 			br.assets = append(br.assets, mk("linux_amd64", true))
@@ -198,6 +215,9 @@ func build(c C20Case) ([]builtRel, relsrv.Catalogue) {
 			br.assets = append(br.assets, mk("darwin_arm64", false), mk("linux_arm64", false))
 		case "both":
 			br.assets = append(br.assets, mk("darwin_arm64", false), mk("linux_amd64", true), mk("windows_amd64", false))
+		}
+		if (r.Platform == "this" || r.Platform == "both") && r.Extra == "deb-after" {
+			br.assets = append(br.assets, extra())
 		}
 		rel := relsrv.Release{ID: id, Tag: r.Tag, Draft: r.Draft, Prerelease: r.Pre}
 		id++
